@@ -786,7 +786,7 @@ func cmdReplay(args []string) int {
 	os.RemoveAll(work)
 	defer os.RemoveAll(work)
 	ovJSON := map[string]string{}
-	if err := buildOverlay(rf.Pkg, filepath.Join(work, "overlay"), "/repo", ovJSON); err != nil {
+	if err := buildOverlay(rf.Pkg, filepath.Join(work, "overlay"), envOr("VERIF_REPO", "/repo"), ovJSON); err != nil {
 		fmt.Fprintln(os.Stderr, err)
 		return 2
 	}
@@ -794,7 +794,7 @@ func cmdReplay(args []string) int {
 	b, _ := json.Marshal(map[string]any{"Replace": ovJSON})
 	os.WriteFile(ovFile, b, 0o644)
 	abs, _ := filepath.Abs(args[0])
-	rs, err := runNative("/repo", work, ovFile, rf.Pkg, []string{abs})
+	rs, err := runNative(envOr("VERIF_REPO", "/repo"), work, ovFile, rf.Pkg, []string{abs})
 	if err != nil {
 		fmt.Fprintln(os.Stderr, err)
 		return 2
